@@ -2,6 +2,7 @@ package checks
 
 import (
 	"encoding/json"
+	"fmt"
 	"os"
 	"path/filepath"
 	"sort"
@@ -101,6 +102,8 @@ func TestCorpus(t *testing.T) {
 			t.Errorf("%s: no runner for %q", f, rp.Property)
 			continue
 		}
+		// (named before it runs: if the process dies in it, the driver attributes the crash to this file)
+		fmt.Fprintf(os.Stderr, "CORPUS-RUNNING file=%s\n", f)
 		res, err := run(rp.Program)
 		if err != nil {
 			t.Errorf("%s: %v", f, err)
